@@ -345,7 +345,7 @@ func c03Gen(b *bridgeHist, blk int, muts []depMutator) {
 			b.ops = append(b.ops, op)
 		}
 	case r.Intn(6) == 0:
-		if op := b.hashesOp([]string{"start-at-tip", "start-after-gap", "rewrite-old", "seventeen"}[r.Intn(4)]); op != nil {
+		if op := b.hashesOp([]string{"start-at-tip", "start-after-gap", "rewrite-old", "seventeen", "empty"}[r.Intn(5)]); op != nil {
 			b.ops = append(b.ops, op)
 		}
 	default:
